@@ -7,8 +7,10 @@ pub mod c01;
 pub mod c02;
 pub mod c03;
 pub mod c04;
+pub mod c05;
 pub mod c06;
 pub mod c08;
+pub mod c09;
 pub mod c11;
 pub mod c12;
 pub mod rangegen;
@@ -29,9 +31,12 @@ pub fn run(ctx: &Ctx) -> Option<Report> {
         "C02" => c02::run(ctx),
         "C03" => c03::run(ctx),
         "C04" => c04::run(ctx),
+        "C05" => c05::run(ctx),
         "C06" => c06::run(ctx),
         "C07" => c01::run(ctx, c01::Which::C07),
         "C08" => c08::run(ctx),
+        "C09" => c09::run(ctx, c09::Which::C09),
+        "C10" => c09::run(ctx, c09::Which::C10),
         "C11" => c11::run(ctx),
         "C12" => c12::run(ctx),
         "C13" => c13::run(ctx),
@@ -49,9 +54,12 @@ pub fn replay(property: &str, case: &Json, ctx: &Ctx) -> Option<Report> {
         "C02" => c02::replay(case),
         "C03" => c03::replay(case),
         "C04" => c04::replay(case),
+        "C05" => c05::replay(case),
         "C06" => c06::replay(case),
         "C07" => c01::replay(case, c01::Which::C07),
         "C08" => c08::replay(case, ctx),
+        "C09" => c09::replay(case, c09::Which::C09),
+        "C10" => c09::replay(case, c09::Which::C10),
         "C11" => c11::replay(case),
         "C12" => c12::replay(case),
         "C13" => c13::run(ctx),
